@@ -419,8 +419,9 @@ func (in *c20Inst) ackOne(pn protocol.PacketNumber, size, prior protocol.ByteCou
 		cls := "other"
 		if minRTT < in.minRTTAck {
 			cls = "min-rtt-decreased-since-previous-ack"
-		} else if ep := in.s.cubic.epoch; !in.cfg.reno && !ep.IsZero() && in.clk.now.Sub(ep) >= 273*time.Second {
-			cls = "cubic-epoch-older-than-273s"
+		} else if ep := in.s.cubic.epoch; !in.cfg.reno && !ep.IsZero() && in.clk.now.Sub(ep) >= 25*time.Second {
+			// 410*offset^3*1280 leaves int64 for offset >= ~26 000 (25.4 s past the origin point)
+			cls = "cube-overflow-epoch-older-than-25s"
 		}
 		return "", explore.Failf("cwnd-shrinks-on-ack:"+in.algo()+":"+ph+":"+cls,
 			"acknowledgement of packet %d (%d bytes, prior in flight %d) shrank cwnd %d -> %d (%s, min RTT %s, previous ack saw %s)",
